@@ -44,6 +44,31 @@ func isUniversalMatch(re *syntax.Regexp) bool {
 	return false
 }
 
+// isDotAllStar reports whether re is (?s:.*): a wildcard that matches every
+// byte sequence, newlines included.
+func isDotAllStar(re *syntax.Regexp) bool {
+	return re != nil && re.Op == syntax.OpStar && len(re.Sub) == 1 && re.Sub[0].Op == syntax.OpAnyChar
+}
+
+// isLiteralThenDotAllStar reports whether re is a literal directly followed by
+// (?s:.*) and nothing else (captures around either part are looked through).
+func isLiteralThenDotAllStar(re *syntax.Regexp) bool {
+	for re != nil && re.Op == syntax.OpCapture && len(re.Sub) == 1 {
+		re = re.Sub[0]
+	}
+	if re == nil || re.Op != syntax.OpConcat || len(re.Sub) != 2 {
+		return false
+	}
+	lit, star := re.Sub[0], re.Sub[1]
+	for lit.Op == syntax.OpCapture && len(lit.Sub) == 1 {
+		lit = lit.Sub[0]
+	}
+	for star.Op == syntax.OpCapture && len(star.Sub) == 1 {
+		star = star.Sub[0]
+	}
+	return lit.Op == syntax.OpLiteral && lit.Flags&syntax.FoldCase == 0 && isDotAllStar(star)
+}
+
 // isStartAnchorOnly checks if an AST only contains start-of-text/line anchors.
 // Patterns like ^, ^+, ^^^ only match at position 0, so if inner literal is
 // found at position 0, the prefix trivially matches.
@@ -153,9 +178,17 @@ type ReverseInnerSearcher struct {
 	innerLen        int  // Length of the inner literal for calculating positions
 	universalPrefix bool // True if prefix is .* (matches everything from start)
 	universalSuffix bool // True if suffix ends with .* (matches everything to end)
-	startAnchored   bool // True if prefix only contains start anchors (^, ^+, etc.)
-	fwdCachePool    sync.Pool
-	revCachePool    sync.Pool
+	// universalSpan is true only for (?s).*literal(?s).* : every match spans from
+	// the search start to the end of the haystack, so Find needs no scan. With the
+	// default dot the wildcards stop at '\n' and the span has to be searched.
+	universalSpan bool
+	// prefixNullable is true when the prefix is .* (or empty): it matches the
+	// empty string, so a candidate right at the search start needs no reverse
+	// scan. (.+ is "universal" but not nullable.)
+	prefixNullable bool
+	startAnchored  bool // True if prefix only contains start anchors (^, ^+, etc.)
+	fwdCachePool   sync.Pool
+	revCachePool   sync.Pool
 }
 
 // NewReverseInnerSearcher creates a reverse inner searcher using AST splitting.
@@ -277,6 +310,8 @@ func NewReverseInnerSearcher(
 		innerLen:        innerLen,
 		universalPrefix: universalPrefix,
 		universalSuffix: universalSuffix,
+		universalSpan:   isDotAllStar(innerInfo.PrefixAST) && isLiteralThenDotAllStar(innerInfo.SuffixAST),
+		prefixNullable:  universalPrefix && innerInfo.PrefixAST.Op != syntax.OpPlus,
 		startAnchored:   startAnchored,
 	}
 	s.fwdCachePool = sync.Pool{
@@ -332,7 +367,7 @@ func (s *ReverseInnerSearcher) Find(haystack []byte) *Match {
 	//   - Match end is ALWAYS len(haystack) (because .* matches any suffix to end)
 	// We can skip expensive DFA scans and just verify with fast IsMatch.
 	// This reduces Find from O(n) DFA scan to O(1) for common patterns!
-	if s.universalPrefix && s.universalSuffix {
+	if s.universalSpan {
 		if s.IsMatch(haystack) {
 			return NewMatch(0, len(haystack), haystack)
 		}
@@ -474,7 +509,7 @@ func (s *ReverseInnerSearcher) IsMatch(haystack []byte) bool {
 		//   - universalPrefix (.*): trivially matches empty prefix
 		//   - startAnchored (^, ^+): trivially matches at position 0
 		prefixMatches := false
-		if pos == 0 && (s.universalPrefix || s.startAnchored) {
+		if pos == 0 && (s.prefixNullable || s.startAnchored) {
 			// Universal prefix (.*) or start anchor (^) matches at position 0
 			prefixMatches = true
 		} else if pos > 0 {
@@ -539,7 +574,7 @@ func (s *ReverseInnerSearcher) findIndicesAtImpl(haystack []byte, at int, fwdCac
 
 	// UNIVERSAL MATCH OPTIMIZATION:
 	// For patterns like `.*connection.*` where both prefix and suffix are universal (.*)
-	if s.universalPrefix && s.universalSuffix {
+	if s.universalSpan {
 		// Just check if there's an inner literal anywhere from 'at'
 		pos := s.prefilter.Find(haystack, at)
 		if pos >= 0 {
